@@ -25,6 +25,27 @@ def handle (line : String) : String :=
       | some ss => "ok " ++ ";".intercalate (ss.map showCps)
       | none => "err IndexError"
     | none => "bad-op"
+  | ["fresh", ss] =>   -- first use of a fresh module from several threads: the model is a pure function
+    match (ss.splitOn ";").mapM parseCps with
+    | some strs => " ".intercalate (strs.map fun cs => match decode al len cs with
+        | .ok n => "ok=" ++ toString n
+        | .error e => "err=" ++ e.name)
+    | none => "bad-op"
+  | ["opt", items] =>   -- the same calls in a `python -O` child: the model has no asserts to strip
+    let one (it : String) : Option String :=
+      match it.splitOn "|" with
+      | [s, canon] =>
+        match parseCps s, (if canon = "none" then some none else canon.toNat?.map some) with
+        | some cs, some c =>
+          let sh (r : Except Err Nat) : String := match r with
+            | .ok n => "ok=" ++ toString n
+            | .error e => "err=" ++ e.name
+          some (sh (decode al len cs) ++ "/" ++ sh (fromStr (fun _ => c) al len cs))
+        | _, _ => none
+      | _ => none
+    match (items.splitOn ";").mapM one with
+    | some rs => " ".intercalate rs
+    | none => "bad-op"
   | ["fs", canon, s] =>   -- canon: result of uuid.UUID(str) supplied by the harness (`none` | n)
     match parseCps s, (if canon = "none" then some none else canon.toNat?.map some) with
     | some cs, some c => showExcept toString (fromStr (fun _ => c) al len cs)
